@@ -7,6 +7,7 @@ import (
 	"strconv"
 	"strings"
 	"sync"
+	"time"
 
 	"github.com/scrapli/scrapligo/transport"
 )
@@ -70,6 +71,14 @@ type Transport struct {
 	opened    bool
 	start     []byte
 	CloseN    int
+	// EmitDelay > 0: what the device emits in reaction to a write becomes readable only after this
+	// delay (emissions keep their order).  Used to observe whether the client waits.
+	EmitDelay time.Duration
+	// DeliveredAtWrite[i] = bytes delivered to the client when the i-th Write happened.
+	DeliveredAtWrite []int
+	delayQ           chan [][]byte
+	// MsgBoundaries: empty atoms in the device output mark message boundaries that reads do not cross.
+	MsgBoundaries bool
 	// ReadLog records the size of each successful read (for evidence / replay).
 	ReadLog []int
 	// Hook, when set, is called (without the lock) after every Write with the total count.
@@ -122,6 +131,43 @@ func (t *Transport) LogString() string {
 	return sb.String()
 }
 
+// NCLogString renders the log for the NETCONF session model: reads carry their bytes.
+func (t *Transport) NCLogString() string {
+	t.mu.Lock()
+	defer t.mu.Unlock()
+	var sb strings.Builder
+	for i, e := range t.Events {
+		if i > 0 {
+			sb.WriteByte(',')
+		}
+		switch e.Kind {
+		case 'R':
+			sb.WriteString("R" + hex.EncodeToString(e.W))
+		case 'W':
+			sb.WriteString("W" + hex.EncodeToString(e.W))
+		default:
+			sb.WriteByte(e.Kind)
+		}
+	}
+	if len(t.Events) == 0 {
+		return "-"
+	}
+	return sb.String()
+}
+
+// WriteEmissions returns, for each Write in order, the bytes written and the device's emission.
+func (t *Transport) WriteEmissions() (ws [][]byte, ems [][]byte) {
+	t.mu.Lock()
+	defer t.mu.Unlock()
+	for _, e := range t.Events {
+		if e.Kind == 'W' {
+			ws = append(ws, e.W)
+			ems = append(ems, e.Emit)
+		}
+	}
+	return
+}
+
 // StartBytes is what the device emitted when the connection came up.
 func (t *Transport) StartBytes() []byte {
 	t.mu.Lock()
@@ -153,6 +199,10 @@ func (t *Transport) Close() error {
 	defer t.mu.Unlock()
 	t.closed = true
 	t.CloseN++
+	if t.delayQ != nil {
+		close(t.delayQ)
+		t.delayQ = nil
+	}
 	t.cond.Broadcast()
 	return nil
 }
@@ -214,6 +264,9 @@ func (t *Transport) Read(n int) ([]byte, error) {
 			}
 		}
 		stalled := t.StallAfter >= 0 && t.Delivered >= t.StallAfter
+		for len(t.pending) > 0 && len(t.pending[0]) == 0 {
+			t.pending = t.pending[1:]
+		}
 		if !stalled && len(t.pending) > 0 {
 			break
 		}
@@ -237,6 +290,14 @@ func (t *Transport) Read(n int) ([]byte, error) {
 	var out []byte
 	for len(t.pending) > 0 {
 		a := t.pending[0]
+		if len(a) == 0 {
+			// message boundary marker: a read never carries bytes of two messages
+			t.pending = t.pending[1:]
+			if len(out) > 0 {
+				break
+			}
+			continue
+		}
 		if len(out) > 0 && len(out)+len(a) > limit {
 			break
 		}
@@ -258,7 +319,7 @@ func (t *Transport) Read(n int) ([]byte, error) {
 	}
 	t.Delivered += len(out)
 	t.ReadLog = append(t.ReadLog, len(out))
-	t.Events = append(t.Events, Event{Kind: 'R', N: len(out)})
+	t.Events = append(t.Events, Event{Kind: 'R', N: len(out), W: append([]byte(nil), out...)})
 	return out, nil
 }
 
@@ -275,7 +336,21 @@ func (t *Transport) Write(b []byte) error {
 	cp := append([]byte(nil), b...)
 	t.Writes = append(t.Writes, cp)
 	em := t.Dev.Feed(cp)
-	t.pending = append(t.pending, em...)
+	t.DeliveredAtWrite = append(t.DeliveredAtWrite, t.Delivered)
+	if t.EmitDelay > 0 && len(em) > 0 {
+		if t.delayQ == nil {
+			t.delayQ = make(chan [][]byte, 1024)
+			go func(q chan [][]byte, d time.Duration) {
+				for atoms := range q {
+					time.Sleep(d)
+					t.Inject(atoms)
+				}
+			}(t.delayQ, t.EmitDelay)
+		}
+		t.delayQ <- em
+	} else {
+		t.pending = append(t.pending, em...)
+	}
 	t.Events = append(t.Events, Event{Kind: 'W', W: cp, Emit: Flatten(em)})
 	n := len(t.Writes)
 	t.cond.Broadcast()
